@@ -23,6 +23,7 @@ def main() -> int:
     a = ap.parse_args()
     tier = a.tier or common.tier_from_env()
     seed = common.seed_from_env()
+    os.environ["VERIF_TIER"] = tier      # the Lean stage reads the tier from the environment
     try:
         mod = importlib.import_module(f"prop_{a.pid}")
     except ModuleNotFoundError:
